@@ -5,6 +5,7 @@ import (
 	"fmt"
 	"strings"
 	"testing"
+	"time"
 
 	"verif/internal/vk"
 )
@@ -56,7 +57,7 @@ const (
 
 func TestC10FullState(t *testing.T) {
 	ops := c10alphabet()
-	nops := vk.Pick(11, 12)
+	nops := len(ops) // the whole alphabet at both depths (the last entries are the retained topics that share a prefix)
 	ops = ops[:nops]
 	maxA, maxB := 3, vk.Pick(1, 2)
 	shardedPhase(t, "C10", "C10/full-state-exchange", "E1-enum", "TestC10FullState", func(sh vk.Shard, rep *vk.Report) {
@@ -106,6 +107,9 @@ func TestC10FullState(t *testing.T) {
 									rep.Cap("deadline")
 									break outer
 								}
+								// in half of the cases an hour passes between the last change and the exchange (the periodic exchange
+								// of a quiet cluster): what was changed long ago is owed to a lagging node all the same
+								aged := (lossA+lossB+mode+len(ha))%2 == 0
 								if wanted != nil {
 									var an0, bn0 []string
 									for _, oi := range ha {
@@ -115,6 +119,9 @@ func TestC10FullState(t *testing.T) {
 										bn0 = append(bn0, ops[oi].name)
 									}
 									cand := map[string]any{"A_ops": an0, "B_ops": bn0, "A_gossip_lost_mask": lossA, "B_gossip_lost_mask": lossB, "mode": []string{"A->B", "B->A", "both"}[mode], "B_clock_offset": bOff}
+									if aged {
+										cand["one_hour_passes_before_the_exchange"] = true
+									}
 									cand2 := map[string]any{}
 									for k, v := range cand {
 										cand2[k] = v
@@ -181,6 +188,10 @@ func TestC10FullState(t *testing.T) {
 								desc["B_gossip_lost_mask"] = lossB
 								desc["mode"] = []string{"A->B", "B->A", "both"}[mode]
 								desc["B_clock_offset"] = bOff
+								if aged {
+									desc["one_hour_passes_before_the_exchange"] = true
+									dTick += int64(time.Hour) / 10
+								}
 								// sanity of the reference itself: before any exchange each node lists LWW of what it has seen
 								if got, want := a.list().String(), lwwListing(KA).String(); got != want {
 									rep.Violate(vk.Violation{Sig: "c10-view-is-not-newest-of-what-was-seen", Msg: fmt.Sprintf("%v: before any exchange A lists %s; the newest entries among its own changes and the gossip it received give %s", desc, got, want), Replay: desc})
